@@ -5,7 +5,7 @@ CONSTANTS Cap = 2
  NShares = 4
  NVals = 1
  NRoots = 2
- NSigs = 1
+ NSigs = 2
  ThrMC = 3
  MaxCalls = 6
  MaxTrims = 0
